@@ -26,7 +26,7 @@ REAL = {'ThreadPoolExecutor': cf.ThreadPoolExecutor, 'ProcessPoolExecutor': cf.P
         'as_completed': cf.as_completed}
 
 # explicit plans for the dedicated harnesses (C11/C16/C19): when set they override the CTL choice points
-PLAN = {'order': None, 'assign': None}
+PLAN = {'order': None, 'assign': None, 'report': None}
 STATS = {'pool_calls': 0, 'pools': 0}
 EVENTS = []        # (pool kind, call index, worker) for every executed pooled call of the current execution
 # the atomic pools are not re-entrant across threads; one execution at a time per harness process
@@ -194,22 +194,48 @@ class ModelProcessPool(_ModelPool):
 
 
 def model_as_completed(fs, timeout=None):
+    """The real as_completed first reports every future that is ALREADY finished when it is called, iterating a set
+    (arbitrary order), then the others in completion order.  Model: a choice `report` decides whether all pooled calls
+    had finished before the snapshot (then they are reported in another order than they completed: reversed, or the
+    explicit PLAN['report'] permutation) or none had (default: reported as they complete)."""
     fs = list(fs)
-    yielded = set()
-    # futures already done are yielded first (as the real as_completed does)
+    uniq = []
     for f in fs:
-        if isinstance(f, MFuture) and f.done_ and id(f) not in yielded:
-            yielded.add(id(f))
+        if not any(f is g for g in uniq):
+            uniq.append(f)
+    early = 0
+    if PLAN['report'] is not None:
+        early = 1
+    elif len(uniq) > 1:
+        early = CTL.choose('sched:report', 2)
+    if early:
+        done_order = []
+        while any(not f.done_ for f in uniq):
+            pool = next(f for f in uniq if not f.done_).pool
+            g = pool._complete_next(among=[x for x in uniq if x.pool is pool and not x.done_])
+            if any(g is x for x in uniq):
+                done_order.append(g)
+        done_order = [f for f in uniq if f.done_ and not any(f is g for g in done_order)] + done_order
+        if PLAN['report'] is not None:
+            perm = [i for i in PLAN['report'] if i < len(done_order)]
+            done_order = [done_order[i] for i in perm] + [f for j, f in enumerate(done_order) if j not in perm]
+        else:
+            done_order = done_order[::-1]
+        for f in done_order:
             yield f
-    while len(yielded) < len(set(map(id, fs))):
-        todo = [f for f in fs if id(f) not in yielded]
-        if not todo:
-            break
+        return
+    yielded = []
+    for f in uniq:
+        if f.done_:
+            yielded.append(f)
+            yield f
+    while len(yielded) < len(uniq):
+        todo = [f for f in uniq if not any(f is g for g in yielded)]
         pool = todo[0].pool
         f = pool._complete_next(among=[x for x in todo if x.pool is pool])
         # a completion of a future that is not waited for is simply not reported
         if any(f is x for x in todo):
-            yielded.add(id(f))
+            yielded.append(f)
             yield f
 
 
